@@ -227,3 +227,254 @@ class StringsGen(Pool):
         if c == 33: return [r.choice([b'NOSUCHCMD', b'get\xff', b''])] + [k]
         if c == 34: return [b'EXPIRE', k, r.choice([b'0', b'-1'])]
         return [b'SET', k, v]
+
+
+# ---------------------------------------------------------------------------
+# multi-connection paths (TLC-generated <<conn, argv>> sequences), sequential replay
+# ---------------------------------------------------------------------------
+def replay_conn_paths(ctx, srv, paths, label='gen', password=None):
+    i = 0
+    ok = True
+    while i < len(paths) and ok:
+        s = fresh_session(ctx, srv, label)
+        try:
+            while i < len(paths) and s.trace.n < CHUNK:
+                admin = s.open()
+                if password:
+                    s.cmd(admin, [b'AUTH', password])
+                s.cmd(admin, [b'FLUSHALL'])
+                s.close(admin)
+                cmap = {}
+                for c, a in paths[i]:
+                    if c not in cmap or cmap[c] not in s.clients:
+                        cmap[c] = s.open()
+                    s.cmd(cmap[c], a)
+                for c in list(cmap.values()):
+                    if c in s.clients:
+                        s.close(c)
+                i += 1
+        except ServerDied:
+            ok = False
+        s.close_all()
+        if not ctx.validate(s.trace, label='%s[..%d]' % (label, i)):
+            ok = False
+        if not srv.alive():
+            srv.restart()
+    return ok
+
+
+def txn_script(rnd, ci, nsteps, accounts, shared):
+    """Steps for one client of the concurrent C07/C08 workload."""
+    steps = []
+    def acct():
+        return rnd.choice(accounts)
+    for _ in range(nsteps):
+        c = rnd.randrange(12)
+        if c <= 2:      # transfer inside MULTI/EXEC, sent as separate requests
+            a, b = acct(), acct()
+            x = str(rnd.randrange(1, 9)).encode()
+            steps += [('cmd', [b'MULTI']), ('cmd', [b'DECRBY', a, x]), ('cmd', [b'INCRBY', b, x]), ('cmd', [b'EXEC'])]
+        elif c == 3:    # the same, pipelined in one write
+            a, b = acct(), acct()
+            x = str(rnd.randrange(1, 9)).encode()
+            steps.append(('pipe', [[b'MULTI'], [b'DECRBY', a, x], [b'INCRBY', b, x], [b'EXEC']]))
+        elif c == 4:
+            steps.append(('cmd', [b'MGET'] + accounts))
+        elif c == 5:    # optimistic update with WATCH
+            k = acct()
+            steps += [('cmd', [b'WATCH', k]), ('cmd', [b'GET', k]), ('cmd', [b'MULTI']),
+                      ('cmd', [b'INCRBY', k, b'100']), ('cmd', [b'EXEC'])]
+        elif c == 6:    # a failing command inside a transaction does not stop the others
+            steps += [('cmd', [b'MULTI']), ('cmd', [b'INCR', acct()]), ('cmd', [b'LPUSH', acct(), b'x']),
+                      ('cmd', [b'INCRBY', shared, b'notanint']), ('cmd', [b'INCR', shared]), ('cmd', [b'EXEC'])]
+        elif c == 7:
+            steps += [('cmd', [b'MULTI']), ('cmd', [b'SET', acct(), b'0']), ('cmd', [b'DISCARD'])]
+        elif c == 8:
+            steps.append(('pipe', [[b'INCR', shared], [b'GET', shared], [b'INCRBY', acct(), b'1'], [b'MGET'] + accounts]))
+        elif c == 9:
+            steps.append(('cmd', [b'INCR', shared]))
+        elif c == 10:   # WATCH + UNWATCH / nested MULTI / EXEC without MULTI
+            steps += [('cmd', [b'WATCH', acct()]), ('cmd', [b'UNWATCH']), ('cmd', [b'EXEC']), ('cmd', [b'MULTI']),
+                      ('cmd', [b'MULTI']), ('cmd', [b'GET', shared]), ('cmd', [b'EXEC'])]
+        else:           # watch, let others interfere, then transaction in one pipeline
+            k = acct()
+            steps += [('cmd', [b'WATCH', k, shared]), ('sleep', rnd.randrange(0, 3)),
+                      ('pipe', [[b'MULTI'], [b'GET', k], [b'SET', k, b'7'], [b'EXEC']])]
+    return steps
+
+
+class CollsGen(Pool):
+    """C03 traffic: lists, sets, hashes on a small pool of keys with duplicate-prone elements."""
+
+    def __init__(self, rnd):
+        Pool.__init__(self, rnd)
+        self.keys = [b'l1', b'l2', b's1', b's2', b's3', b'h1', b'h2', b'x\xffy', b'str']
+        self.els = [b'a', b'b', b'c', b'a', b'', b'1', b'2', b'10', b'-5', b'\x00\xff', b'x y', b'9223372036854775807']
+        self.seeded = False
+
+    def el(self):
+        return self.rnd.choice(self.els)
+
+    def idx(self):
+        return self.rnd.choice([b'0', b'1', b'-1', b'2', b'-2', b'3', b'-3', b'5', b'-7', b'100', b'-100', b'x', b''])
+
+    def next(self):
+        r = self.rnd
+        if not self.seeded:
+            self.seeded = True
+            return [b'SET', b'str', b'v']
+        k = self.key()
+        c = r.randrange(46)
+        E = lambda n=3: [self.el() for _ in range(r.randrange(1, n + 1))]
+        if c == 0: return [b'LPUSH', k] + E()
+        if c == 1: return [b'RPUSH', k] + E()
+        if c == 2: return [b'LPOP', k]
+        if c == 3: return [b'RPOP', k]
+        if c == 4: return [b'LLEN', k]
+        if c in (5, 6): return [b'LRANGE', k, self.idx(), self.idx()]
+        if c == 7: return [b'LINDEX', k, self.idx()]
+        if c == 8: return [b'LSET', k, self.idx(), self.el()]
+        if c == 9: return [b'LTRIM', k, self.idx(), self.idx()]
+        if c in (10, 11): return [b'LREM', k, self.idx(), self.el()]
+        if c in (12, 13): return [b'SADD', k] + E(4)
+        if c == 14: return [b'SREM', k] + E()
+        if c == 15: return [b'SMEMBERS', k]
+        if c == 16: return [b'SISMEMBER', k, self.el()]
+        if c == 17: return [b'SCARD', k]
+        if c in (18, 19, 20): return [r.choice([b'SUNION', b'SINTER', b'SDIFF'])] + [self.key() for _ in range(r.randrange(1, 4))]
+        if c == 21: return [b'SPOP', k]
+        if c == 22: return [b'SPOP', k, r.choice([b'0', b'1', b'2', b'5', b'-1', b'x'])]
+        if c == 23: return [b'SRANDMEMBER', k]
+        if c == 24: return [b'SRANDMEMBER', k, r.choice([b'0', b'1', b'2', b'5', b'-1', b'-3', b'x'])]
+        if c in (25, 26): return [b'HSET', k] + [x for _ in range(r.randrange(1, 3)) for x in (self.el(), self.el())]
+        if c == 27: return [b'HMSET', k] + [x for _ in range(r.randrange(1, 3)) for x in (self.el(), self.el())]
+        if c == 28: return [b'HGET', k, self.el()]
+        if c == 29: return [b'HMGET', k] + E()
+        if c == 30: return [b'HGETALL', k]
+        if c == 31: return [b'HDEL', k] + E()
+        if c == 32: return [b'HLEN', k]
+        if c == 33: return [b'HEXISTS', k, self.el()]
+        if c == 34: return [b'HKEYS', k]
+        if c == 35: return [b'HVALS', k]
+        if c in (36, 37): return [b'HINCRBY', k, self.el(), r.choice([b'1', b'-1', b'5', b'9223372036854775807', b'-9223372036854775808', b'x'])]
+        if c == 38: return [b'HSET', k, self.el()]
+        if c == 39: return [b'TYPE', k]
+        if c == 40: return [b'DEL', k]
+        if c == 41: return [b'EXISTS', k]
+        if c == 42: return [r.choice([b'LPUSH', b'SADD', b'HSET', b'LRANGE', b'LSET', b'SISMEMBER', b'HGET'])] + [self.key() for _ in range(r.choice([0, 1]))]
+        if c == 43: return [b'EXPIRE', k, b'100000']
+        if c == 44: return [b'TTL', k]
+        return [b'RPUSH', k] + E(4)
+
+
+class MultiDbGen:
+    """C18 traffic: the same key names in several databases, through direct commands and transactions."""
+
+    def __init__(self, rnd):
+        self.rnd = rnd
+        self.s = StringsGen(rnd)
+        self.c = CollsGen(rnd)
+        self.s.keys = [b'k1', b'k2', b'shared']
+        self.c.keys = [b'l1', b's1', b'h1', b'shared']
+        self.pending = []
+
+    def next(self):
+        r = self.rnd
+        if self.pending:
+            return self.pending.pop(0)
+        c = r.randrange(20)
+        if c <= 2:
+            return [b'SELECT', r.choice([b'0', b'1', b'2', b'15', b'16', b'-1', b'x', b'3'])]
+        if c == 3:
+            return [b'FLUSHDB'] if r.random() < 0.5 else [b'DBSIZE']
+        if c == 4 and r.random() < 0.2:
+            return [b'FLUSHALL']
+        if c == 5:
+            self.pending = [self.s.next(), [b'SELECT', r.choice([b'1', b'2', b'0'])], self.s.next(), [b'EXEC'], self.s.next()]
+            return [b'MULTI']
+        if c == 6:
+            return [b'KEYS', b'*']
+        if c < 13:
+            return self.s.next()
+        return self.c.next()
+
+
+class ZSetGen(Pool):
+    """C04 traffic: few members, scores drawn to collide (equal scores, re-scoring across neighbours, +-inf, -0)."""
+
+    def __init__(self, rnd):
+        Pool.__init__(self, rnd)
+        self.keys = [b'z1', b'z2', b'z\xff', b'str', b'lst']
+        self.members = [b'a', b'b', b'c', b'd', b'e', b'f', b'', b'aa', b'\x00', b'B', b'10', b'9']
+        self.scores = [b'0', b'1', b'-1', b'2', b'1.5', b'-1.5', b'0.125', b'1.001', b'1.002', b'-0', b'inf', b'-inf', b'+inf',
+                       b'3', b'2.5', b'100', b'-100', b'9999', b'0.5', b'1']
+        self.bad = [b'nan', b'NaN', b'-nan', b'abc', b'', b'1..2', b'--1']
+        self.n = 0
+
+    def m(self):
+        return self.rnd.choice(self.members)
+
+    def sc(self):
+        if self.rnd.random() < 0.06:
+            return self.rnd.choice(self.bad)
+        return self.rnd.choice(self.scores)
+
+    def next(self):
+        r = self.rnd
+        self.n += 1
+        if self.n == 1:
+            return [b'SET', b'str', b'v']
+        if self.n == 2:
+            return [b'RPUSH', b'lst', b'x']
+        k = self.key() if r.random() < 0.3 else b'z1'
+        c = r.randrange(40)
+        if c < 8: return [b'ZADD', k, self.sc(), self.m()]
+        if c < 11: return [b'ZADD', k] + [x for _ in range(r.randrange(2, 4)) for x in (self.sc(), self.m())]
+        if c < 14: return [b'ZREM', k] + [self.m() for _ in range(r.randrange(1, 3))]
+        if c == 14: return [b'ZSCORE', k, self.m()]
+        if c == 15: return [b'ZCARD', k]
+        if c == 16: return [r.choice([b'ZRANK', b'ZREVRANK']), k, self.m()]
+        if c < 20: return [r.choice([b'ZRANGE', b'ZREVRANGE']), k, self.idx(), self.idx()] + ([b'WITHSCORES'] if r.random() < 0.5 else [])
+        if c < 23: return [r.choice([b'ZRANGEBYSCORE', b'ZREVRANGEBYSCORE']), k, self.sc(), self.sc()] + ([b'withscores'] if r.random() < 0.5 else [])
+        if c == 23: return [b'ZCOUNT', k, self.sc(), self.sc()]
+        if c < 28: return [b'ZINCRBY', k, r.choice([b'1', b'-1', b'0.5', b'-0.125', b'2', b'inf', b'-inf', b'nan', b'x', b'0', b'-2.5']), self.m()]
+        if c == 28: return [r.choice([b'ZPOPMIN', b'ZPOPMAX']), k]
+        if c == 29: return [r.choice([b'ZPOPMIN', b'ZPOPMAX']), k, r.choice([b'0', b'1', b'2', b'10', b'-1', b'x'])]
+        if c == 30: return [b'ZRANGE', k, b'0', b'-1', b'WITHSCORES']
+        if c == 31: return [b'DEL', k] if r.random() < 0.3 else [b'TYPE', k]
+        if c == 32: return [r.choice([b'ZADD', b'ZREM', b'ZSCORE', b'ZRANGE', b'ZINCRBY', b'ZCOUNT'])] + [self.m() for _ in range(r.choice([0, 1, 2]))]
+        if c == 33: return [b'ZADD', k, self.sc()]
+        if c == 34: return [b'ZADD', k, self.sc(), self.m(), self.sc()]
+        return [b'ZADD', k, self.sc(), self.m()]
+
+    def idx(self):
+        return self.rnd.choice([b'0', b'1', b'-1', b'2', b'-2', b'3', b'5', b'-5', b'10', b'20', b'-20', b'x'])
+
+
+ZMUT = {b'ZADD', b'ZREM', b'ZINCRBY', b'ZPOPMIN', b'ZPOPMAX'}
+
+
+def zset_history(ctx, srv, g, n, label='zrand'):
+    """random sorted-set history; after every mutating command the skip-list invariants (hook H8) are checked."""
+    s = fresh_session(ctx, srv, label)
+    try:
+        cid = s.open()
+        s.cmd(cid, [b'FLUSHALL'])
+        for j in range(n):
+            cid = ensure_conn(s, cid)
+            a = g.next()
+            s.cmd(cid, a)
+            if a and a[0].upper() in ZMUT and len(a) > 1 and srv.alive():
+                res = srv.ctl.cmd('ZCHECK 0 ' + a[1].hex())
+                if res != 'NONE':
+                    s.trace.emit({'k': 'chk', 'name': 'skiplist', 'ok': 1 if res == 'OK' else 0, 'detail': res[:200]})
+        cid = ensure_conn(s, cid)
+        dump_db(s, cid)
+    except (ServerDied, OSError):
+        if not srv.alive():
+            s.trace.emit({'k': 'crash', 'status': srv.exit_status()})
+    s.close_all()
+    ok = ctx.validate(s.trace, label=label)
+    if not srv.alive():
+        srv.restart()
+    return ok
